@@ -73,6 +73,8 @@ pub struct GInvoke {
     pub autoforward: bool,
     pub finalize: Option<Vec<GItem>>,
     pub child_xml: String,
+    /// `namelist` attribute
+    pub namelist: Option<String>,
 }
 
 #[derive(Clone, Debug)]
@@ -574,7 +576,13 @@ fn render_state(s: &GState, out: &mut String) {
         render_trans(t, out);
     }
     for i in &s.invokes {
-        out.push_str(&format!("<invoke type=\"scxml\" id=\"{}\"{}><content>{}</content>", i.id, if i.autoforward { " autoforward=\"true\"" } else { "" }, i.child_xml));
+        out.push_str(&format!(
+            "<invoke type=\"scxml\" id=\"{}\"{}{}><content>{}</content>",
+            i.id,
+            if i.autoforward { " autoforward=\"true\"" } else { "" },
+            i.namelist.as_ref().map(|n| format!(" namelist=\"{}\"", n)).unwrap_or_default(),
+            i.child_xml
+        ));
         if let Some(f) = &i.finalize {
             out.push_str("<finalize>");
             render_items(f, out);
@@ -984,7 +992,7 @@ pub fn gen_structural(p: &mut Prng) -> (GDoc, Vec<String>) {
         fill_structural(&mut s, p, &infos, &events);
         kids[kdx] = s;
     }
-    let root_init = if p.chance(1, 2) {
+    let mut root_init = if p.chance(1, 2) {
         let mut pool: Vec<usize> = (1..infos.len()).collect();
         if p.chance(1, 2) {
             pool = infos[0].kids.clone();
@@ -995,6 +1003,55 @@ pub fn gen_structural(p: &mut Prng) -> (GDoc, Vec<String>) {
     } else {
         Init::Default
     };
+    // a compound state whose default initial names several states in different regions of a
+    // parallel below it (each possibly not its region's default child), entered by default: the
+    // descendants of ALL initial targets are added before the ancestors of any of them
+    if p.chance(1, 3) {
+        let mut m0 = st("m0".to_string(), Kind::State);
+        let mut m1 = st("m1".to_string(), Kind::Parallel);
+        let nreg = p.range(2, 3) as usize;
+        let mut picks: Vec<String> = vec![];
+        for r in 0..nreg {
+            let rid = format!("m{}", r + 2);
+            let mut reg = st(rid.clone(), Kind::State);
+            let a = st(format!("{}a", rid), Kind::State);
+            let mut b = st(format!("{}b", rid), Kind::State);
+            if p.chance(1, 3) {
+                b.kids.push(st(format!("{}b1", rid), Kind::State));
+                b.kids.push(st(format!("{}b2", rid), Kind::State));
+            }
+            if p.chance(1, 4) {
+                reg.onentry.push(vec![GItem::Log("6".to_string())]);
+            }
+            // which state of this region the initial names (if any): mostly NOT the default child
+            match p.below(6) {
+                0 => {}
+                1 => picks.push(a.id.clone()),
+                2 | 3 => picks.push(b.id.clone()),
+                _ => picks.push(if b.kids.is_empty() { b.id.clone() } else { b.kids[1].id.clone() }),
+            }
+            reg.trans.push(GTrans { events: vec![(*p.pick(&events)).to_string()], targets: vec![if p.chance(1, 2) { a.id.clone() } else { b.id.clone() }], ..Default::default() });
+            reg.kids.push(a);
+            reg.kids.push(b);
+            m1.kids.push(reg);
+        }
+        if picks.is_empty() {
+            picks.push("m2b".to_string());
+        }
+        if p.chance(1, 2) {
+            picks.reverse();
+        }
+        m0.init = if p.chance(1, 2) { Init::Attr(picks) } else { Init::Elem(picks, vec![]) };
+        m0.kids.push(m1);
+        let back = kids[0].id.clone();
+        m0.trans.push(GTrans { events: vec![(*p.pick(&events)).to_string()], targets: vec![back], ..Default::default() });
+        // reachable: from the first top-level state, and sometimes as the document's initial state
+        kids[0].trans.insert(0, GTrans { events: vec![(*p.pick(&events)).to_string()], targets: vec!["m0".to_string()], ..Default::default() });
+        if p.chance(1, 3) {
+            root_init = Init::Attr(vec!["m0".to_string()]);
+        }
+        kids.push(m0);
+    }
     let ne = p.range(3, 9);
     let evs = (0..ne).map(|_| (*p.pick(&events)).to_string()).collect();
     let data = VARS.iter().map(|v| (v.to_string(), "0".to_string())).collect();
